@@ -10,6 +10,22 @@ import os
 import sys
 
 ROUND_FOCUS = {
+    5: ('This time prefer: (1) COMBINATIONS of two features that each work '
+        'alone (compression x signing, IGNORE x symlinks, duplicate entries '
+        'x sub-directory operations, profiles x incremental/timestamp '
+        'options, keep-going x one-file-system mode, several Manifests in '
+        'one directory x anything), (2) the command-line layer (argument '
+        'parsing and defaults, option precedence, exit status, which '
+        'failures are logged, several paths per invocation), (3) the '
+        '2nd..nth element of something (off-by-one at the ends of a list, '
+        'state that is not reset between loop iterations, the last entry '
+        'of a Manifest, the deepest directory), (4) numeric and time '
+        'boundaries (sizes at 2**31/2**32/2**63, mtimes with sub-second '
+        'parts, year/century boundaries, 0 and 1 of everything), (5) '
+        'anything you find by reading the code that the list below does '
+        'not mention yet. They should look like plausible refactoring '
+        'slips or "optimisations" a maintainer might make, not sabotage '
+        'with magic constants.'),
     4: ('This time prefer: (1) entry points and option combinations that '
         'are used less often (single-path API calls such as verify_path / '
         'assert_path_verifies / update_entry_for_path / find_path_entry / '
